@@ -290,45 +290,66 @@ def run_check(prop, tier, seed, workdir, t_start, jobs):
     evidence_path = os.path.join(os.environ.get('VERIF_EVIDENCE_DIR') or os.path.join(VERIF, 'evidence'),
                                  f'{prop}.json')
     problems = []      # broken obligations (strings)
-    # 1. regenerate generated Lean from the repository (schemas)
-    if hasattr(mod, 'prepare'):
-        for msg in mod.prepare(workdir) or []:
-            problems.append(msg)
-    # 2. build
-    targets = getattr(mod, 'LEAN_TARGETS', [f'BridgeVerif.Props.{prop}']) + ['driver']
-    ok, out = common.lake_build(targets)
-    build_ok = ok
-    if not ok:
-        problems.append('lake build failed: ' + ' | '.join(
-            l for l in out.splitlines() if 'error' in l)[:1500])
-    if tier == 'thorough' and ok:
-        # independent re-check of the compiled modules by leanchecker
-        mods = [t for t in targets if t != 'driver']
-        rc, lo = common.sh(['lake', 'env', 'leanchecker'] + mods, cwd=common.LEAN, timeout=3000)
-        if rc != 0:
-            problems.append('leanchecker rejected: ' + lo[-800:])
-    # 3. audit
-    audit_res, obligations, discharged = {}, 0, 0
-    if build_ok:
-        audit_res, aout, arc = common.audit(prop, workdir, getattr(mod, 'AUDIT_PROPS', None))
-        required = list(getattr(mod, 'REQUIRED', []))
-        for n in required:
-            if n not in audit_res:
-                problems.append(f'required theorem {n} is missing from Props/{prop}.lean')
-                audit_res[n] = None
-        obligations = len(audit_res)
-        for n, ax in audit_res.items():
-            if ax is None:
-                problems.append(f'theorem {n} did not check (no axiom report)')
-            elif not set(ax) <= common.ALLOWED_AXIOMS:
-                problems.append(f'theorem {n} uses inadmissible axioms {ax}')
-            else:
-                discharged += 1
-        hits = common.source_scan([t for t in targets if t != 'driver'])
-        if hits:
-            problems.append('forbidden constructs in Lean sources: ' + '; '.join(hits[:10]))
+    lock = common.BuildLock()
+    lock.__enter__()
+    try:
+        # 1. regenerate the Lean files that are TRANSLATED from the repository (JSON schemas, scoring tables): every run
+        #    re-checks the theorems against what the source says now.  The driver imports both, so both are always
+        #    regenerated; a translation failure is an obligation problem for the properties whose theorems depend on the file.
+        targets = getattr(mod, 'LEAN_TARGETS', [f'BridgeVerif.Props.{prop}']) + ['driver']
+        import translate_schema
+        import translate_score
+        closure = set(common.import_closure([t for t in targets if t != 'driver']))
+        for modname, tr in (('Schemas', translate_schema), ('ScoreTables', translate_score)):
+            changed, err = tr.regenerate(common.REPO, common.LEAN)
+            gen_file = os.path.join(common.LEAN, 'BridgeVerif', 'Generated', modname + '.lean')
+            if err and gen_file in closure:
+                problems.append(err)
+        if hasattr(mod, 'prepare'):
+            for msg in mod.prepare(workdir) or []:
+                if msg not in problems:
+                    problems.append(msg)
+        # 2. build (the driver first and on its own: it must exist even when a property module no longer checks)
+        common.lake_build(['driver'])
+        ok, out = common.lake_build(targets)
+        build_ok = ok
+        if not ok:
+            problems.append('lake build failed: ' + ' | '.join(
+                l for l in out.splitlines() if 'error' in l)[:1500])
+        if tier == 'thorough' and ok:
+            # independent re-check of the compiled modules by leanchecker
+            mods = [t for t in targets if t != 'driver']
+            rc, lo = common.sh(['lake', 'env', 'leanchecker'] + mods, cwd=common.LEAN, timeout=3000)
+            if rc != 0:
+                problems.append('leanchecker rejected: ' + lo[-800:])
+        # 3. audit
+        audit_res, obligations, discharged = {}, 0, 0
+        if build_ok:
+            audit_res, aout, arc = common.audit(prop, workdir, getattr(mod, 'AUDIT_PROPS', None))
+            required = list(getattr(mod, 'REQUIRED', []))
+            for n in required:
+                if n not in audit_res:
+                    problems.append(f'required theorem {n} is missing from Props/{prop}.lean')
+                    audit_res[n] = None
+            obligations = len(audit_res)
+            for n, ax in audit_res.items():
+                if ax is None:
+                    problems.append(f'theorem {n} did not check (no axiom report)')
+                elif not set(ax) <= common.ALLOWED_AXIOMS:
+                    problems.append(f'theorem {n} uses inadmissible axioms {ax}')
+                else:
+                    discharged += 1
+            hits = common.source_scan([t for t in targets if t != 'driver'])
+            if hits:
+                problems.append('forbidden constructs in Lean sources: ' + '; '.join(hits[:10]))
+        # a private copy of the driver for the correspondence run of THIS check
+        if os.path.exists(common.DRIVER):
+            shutil.copy2(common.DRIVER, os.path.join(workdir, 'driver'))
+            os.environ['VERIF_DRIVER'] = os.path.join(workdir, 'driver')
+    finally:
+        lock.__exit__()
     # 4. correspondence
-    if not os.path.exists(common.DRIVER):
+    if not os.path.exists(os.environ.get('VERIF_DRIVER') or common.DRIVER):
         raise Infra('model driver could not be built:\n' + out[-2000:])
     nshards = jobs or (getattr(mod, 'SHARDS', {}).get(tier, 1))
     args = [(prop, tier, seed, i, nshards, workdir) for i in range(nshards)]
